@@ -173,7 +173,17 @@ structure TimeArgs where
   timeRange : Option Range := none
   secondsRange : Option (Sec × Sec) := none
   timeWithin : Option Range := none
+  /-- not an argument of `get_array` but part of the context: `start` of the run document, in whole seconds since
+  the epoch, when the storage provides one (`int(t.timestamp())`); `none` = `RunMetadataNotAvailable` → data branch -/
+  runDocStartS : Option Int := none
 deriving Repr, Inhabited
+
+/-- `estimate_run_start_and_end(run_id, targets)[0]`: the run document's `start` floored to a second
+(`int(t.timestamp()) * int(1e9)`) when there is one, else the data branch `runStart` -/
+def estimateRunStart (stored : List Chunk) (a : TimeArgs) : Except Err Int :=
+  match a.runDocStartS with
+  | some s => .ok (s * nsPerS)
+  | none => runStart stored
 
 /-- `Context.to_absolute_time_range` as `get_iter` calls it (`full_range` is never passed, so it
 always counts as one `None`): with all three given → `RuntimeError`; any two are accepted and
@@ -187,7 +197,7 @@ def toAbsolute (stored : List Chunk) (a : TimeArgs) : Except Err (Option Range) 
       match a.secondsRange with
       | none => .ok a.timeRange
       | some (s0, s1) =>
-        match runStart stored with
+        match estimateRunStart stored a with
         | .error e => .error e
         | .ok t0 => .ok (some (t0 + s0.toNs, t0 + s1.toNs))
     match afterSec with
